@@ -885,7 +885,8 @@ def expand_table_lookups(fn, resolve_table, nonnull=None, max_rest=40,
         if isinstance(e, ast.Call) and isinstance(e.func, ast.Attribute) \
                 and e.func.attr == "get" and 1 <= len(e.args) <= 2 and \
                 not e.keywords:
-            t = resolve_table(e.func.value)
+            t = e.func.value if isinstance(e.func.value, ast.Dict) \
+                else resolve_table(e.func.value)
             if isinstance(t, ast.Dict):
                 return t, e.args[0], (e.args[1] if len(e.args) == 2
                                       else ast.Constant(None))
@@ -900,9 +901,19 @@ def expand_table_lookups(fn, resolve_table, nonnull=None, max_rest=40,
         if isinstance(t, ast.Dict):
             def keyok(k):
                 # a constant, or a class constant written self.X / cls.X
-                return isinstance(k, ast.Constant) or (
-                    isinstance(k, ast.Attribute) and isinstance(
-                        k.value, ast.Name) and k.value.id in ("self", "cls"))
+                if isinstance(k, ast.Constant) or (
+                        isinstance(k, ast.Attribute) and isinstance(
+                            k.value, ast.Name) and k.value.id in ("self",
+                                                                  "cls")):
+                    return True
+                # a member of an enumeration written Class.MEMBER /
+                # Outer.Class.MEMBER (upper-case member of a dotted name)
+                x = k
+                if isinstance(x, ast.Attribute) and x.attr.isupper():
+                    while isinstance(x, ast.Attribute):
+                        x = x.value
+                    return isinstance(x, ast.Name)
+                return False
             if any(k is None or not keyok(k) for k in t.keys):
                 return None
             return list(zip(t.keys, t.values))
